@@ -29,7 +29,7 @@ mod ty;
 use fam::{M, Visitor};
 use gluon::vm::api::de::De;
 use gluon::vm::api::ser::Ser;
-use gluon::vm::api::{FunctionRef, Getable, Hole, OpaqueValue, OwnedFunction, Pushable, ValueRef, VmType};
+use gluon::vm::api::{FunctionRef, Getable, convert, Hole, OpaqueValue, OwnedFunction, Pushable, ValueRef, VmType};
 use gluon::vm::{ExternModule, Variants};
 use gluon::{RootedThread, Thread, ThreadExt};
 use gvh::out::{Args, Hist, fnv};
@@ -107,6 +107,30 @@ fn walk(v: Variants, o: &mut String, depth: u32) {
     }
 }
 
+/// `Getable` that renders the raw representation it is handed: `convert::<T, Walked>` pushes a
+/// `T` and walks what was pushed, without rooting the value.
+struct Walked(String);
+impl VmType for Walked {
+    type Type = Hole;
+    fn make_type(vm: &Thread) -> gluon::base::types::ArcType {
+        Hole::make_type(vm)
+    }
+}
+impl<'vm, 'value> Getable<'vm, 'value> for Walked {
+    type Proxy = Variants<'value>;
+    fn to_proxy(_vm: &'vm Thread, value: Variants<'value>) -> gluon::vm::Result<Self::Proxy> {
+        Ok(value)
+    }
+    fn from_proxy(vm: &'vm Thread, proxy: &'value mut Self::Proxy) -> Self {
+        <Self as Getable<'vm, 'value>>::from_value(vm, proxy.clone())
+    }
+    fn from_value(_vm: &'vm Thread, value: Variants<'value>) -> Self {
+        let mut o = String::new();
+        walk(value, &mut o, 0);
+        Walked(o)
+    }
+}
+
 thread_local! {
     static CUR_VM: std::cell::RefCell<Option<RootedThread>> = std::cell::RefCell::new(None);
 }
@@ -123,11 +147,13 @@ fn guard<F: FnOnce() -> String>(f: F) -> String {
                 "?".to_string()
             };
             LAST_PANIC.with(|p| *p.borrow_mut() = msg);
+            DIRTY.with(|d| d.set(true));
             "FAIL".to_string()
         }
     }
 }
 thread_local! {
+    static DIRTY: std::cell::Cell<bool> = std::cell::Cell::new(false);
     static LAST_PANIC: std::cell::RefCell<String> = std::cell::RefCell::new(String::new());
 }
 
@@ -150,11 +176,19 @@ fn vm_err_class(e: &gluon::vm::Error) -> String {
 // ---------------------------------------------------------------------------------------------
 // the VM
 
-fn new_vm() -> RootedThread {
+fn new_vm(needs_map: bool) -> RootedThread {
     let vm = gluon::VmBuilder::new().build();
+    // std.map (needed by the BTreeMap instances) only compiles with the implicit prelude
+    if !needs_map {
+        vm.get_database_mut().implicit_prelude(false);
+    }
     vm.run_expr::<OpaqueValue<RootedThread, Hole>>(
         "c11init",
-        "let _ = import! std.map\nlet _ = import! std.types\nlet _ = import! std.array.prim\n()",
+        if needs_map {
+            "let _ = import! std.map\nlet _ = import! std.types\nlet _ = import! std.array.prim\n()"
+        } else {
+            "let _ = import! std.types\nlet _ = import! std.array.prim\n()"
+        },
     )
     .unwrap_or_else(|e| panic!("vm init: {}", e));
     CUR_VM.with(|c| *c.borrow_mut() = Some(vm.clone()));
@@ -169,6 +203,7 @@ struct ChildCfg {
     from_case: usize,
     done_routes: BTreeSet<String>,
     gfrom: usize,
+    disabled: BTreeSet<String>,
     tier_thorough: bool,
     seed: u64,
     log: std::fs::File,
@@ -196,23 +231,29 @@ fn render<T: M>(x: &T) -> String {
     x.to_val().text()
 }
 
-type Serde<'a, T> = &'a dyn Fn(&RootedThread, &mut ChildCfg, usize, &T, &str, bool);
+/// A VM plus the Gluon functions of route 3.  Rebuilt after every caught panic: a panic inside
+/// the VM poisons its context mutex and leaves it unusable.
+struct St<T> {
+    vm: RootedThread,
+    f_id: Option<OwnedFunction<fn(T) -> T>>,
+    f_rb: Option<OwnedFunction<fn(T) -> T>>,
+    f_wrap: Option<OwnedFunction<fn(T) -> Option<T>>>,
+    f_serrb: Option<Box<dyn std::any::Any>>,
+    serrb_tried: bool,
+}
 
-fn run_type<T>(cfg: &mut ChildCfg, serde: Option<Serde<T>>)
+struct Progs {
+    id: String,
+    rb: String,
+    wrap: String,
+}
+
+fn mk_state<T>(progs: &Progs) -> St<T>
 where
     T: M + VmType + Send + Sync + for<'vm> Pushable<'vm> + for<'vm, 'value> Getable<'vm, 'value>,
     <T as VmType>::Type: Sized,
 {
-    let ty = T::ty();
-    let vm = new_vm();
-    cfg.emit(&format!("T {}\t{}\t{}\t{}", cfg.idx, ty.name(), ty.tcode_string(), if serde.is_some() { "V" } else { "C" }));
-    let cases = cases_for(&ty, cfg.seed, cfg.idx, cfg.tier_thorough);
-
-    // Gluon functions of route 3 (compiled once per child)
-    let prog_id = ty.program(&ty.gty(true), "x");
-    let mut fresh = 0;
-    let prog_rb = ty.program(&ty.gty(true), &ty.rebuild("x", &mut fresh));
-    let prog_wrap = ty.program(&format!("Option {}", ty.gty(true)), "Some x");
+    let vm = new_vm(T::ty().needs_map());
     let compile = |name: &str, src: &str| -> Option<OwnedFunction<fn(T) -> T>> {
         match catch_unwind(AssertUnwindSafe(|| vm.run_expr::<OwnedFunction<fn(T) -> T>>(name, src))) {
             Ok(Ok((f, _))) => Some(f),
@@ -223,17 +264,86 @@ where
             Err(_) => None,
         }
     };
-    let mut f_id = compile("c11id", &prog_id);
-    let mut f_rb = compile("c11rb", &prog_rb);
-    let mut f_wrap: Option<OwnedFunction<fn(T) -> Option<T>>> =
-        match catch_unwind(AssertUnwindSafe(|| vm.run_expr::<OwnedFunction<fn(T) -> Option<T>>>("c11wrap", &prog_wrap))) {
-            Ok(Ok((f, _))) => Some(f),
-            Ok(Err(e)) => {
-                eprintln!("compile wrap failed: {}\n{}", e, prog_wrap);
-                None
-            }
-            Err(_) => None,
-        };
+    let f_id = compile("c11id", &progs.id);
+    let f_rb = compile("c11rb", &progs.rb);
+    let f_wrap = match catch_unwind(AssertUnwindSafe(|| vm.run_expr::<OwnedFunction<fn(T) -> Option<T>>>("c11wrap", &progs.wrap))) {
+        Ok(Ok((f, _))) => Some(f),
+        Ok(Err(e)) => {
+            eprintln!("compile wrap failed: {}\n{}", e, progs.wrap);
+            None
+        }
+        Err(_) => None,
+    };
+    DIRTY.with(|d| d.set(false));
+    St { vm, f_id, f_rb, f_wrap, f_serrb: None, serrb_tried: false }
+}
+
+fn vm_healthy(vm: &RootedThread) -> bool {
+    let hook = std::panic::take_hook();
+    std::panic::set_hook(Box::new(|_| {}));
+    let ok = catch_unwind(AssertUnwindSafe(|| {
+        let a = convert::<i64, i64>(vm, 41).ok() == Some(41);
+        let rv = 42i64.marshal::<RootedThread>(vm);
+        let b = rv.is_ok();
+        drop(rv);
+        a && b
+    }))
+    .unwrap_or(false);
+    std::panic::set_hook(hook);
+    ok
+}
+
+fn run_route<T>(
+    cfg: &mut ChildCfg,
+    st: &mut St<T>,
+    progs: &Progs,
+    done: &BTreeSet<String>,
+    k: usize,
+    name: &str,
+    f: &mut dyn FnMut(&mut St<T>) -> String,
+) where
+    T: M + VmType + Send + Sync + for<'vm> Pushable<'vm> + for<'vm, 'value> Getable<'vm, 'value>,
+    <T as VmType>::Type: Sized,
+{
+    if done.contains(name) {
+        return;
+    }
+    if cfg.disabled.contains(name) {
+        cfg.emit(&format!("E {} {}\tSKIPPED\troute disabled after repeated aborts", k, name));
+        return;
+    }
+    if DIRTY.with(|d| d.get()) {
+        // a panic inside the VM may have poisoned one of its locks: probe it, and replace it when
+        // it is unusable (never dropping it: the destructors would panic again)
+        if vm_healthy(&st.vm) {
+            DIRTY.with(|d| d.set(false));
+        } else {
+            std::mem::forget(std::mem::replace(st, mk_state::<T>(progs)));
+        }
+    }
+    cfg.emit(&format!("B {} {}", k, name));
+    LAST_PANIC.with(|p| p.borrow_mut().clear());
+    let r = guard(|| f(st));
+    let note = LAST_PANIC.with(|p| p.borrow().clone());
+    cfg.emit(&format!("E {} {}\t{}\t{}", k, name, r, note.replace(['\n', '\t'], " ")));
+}
+
+type Serde<'a, T> = &'a dyn Fn(&mut St<T>, &Progs, &mut ChildCfg, &BTreeSet<String>, usize, &T);
+
+fn run_type<T>(cfg: &mut ChildCfg, serde: Option<Serde<T>>)
+where
+    T: M + VmType + Send + Sync + for<'vm> Pushable<'vm> + for<'vm, 'value> Getable<'vm, 'value>,
+    <T as VmType>::Type: Sized,
+{
+    let ty = T::ty();
+    cfg.emit(&format!("T {}\t{}\t{}\t{}", cfg.idx, ty.name(), ty.tcode_string(), if serde.is_some() { "V" } else { "C" }));
+    let cases = cases_for(&ty, cfg.seed, cfg.idx, cfg.tier_thorough);
+    let progs = Progs {
+        id: ty.program(&ty.gty(true), "x"),
+        rb: ty.program(&ty.gty(true), &ty.rebuild_body()),
+        wrap: ty.program(&format!("Option {}", ty.gty(true)), "Some x"),
+    };
+    let mut st = mk_state::<T>(&progs);
 
     if cfg.from_case != usize::MAX {
         for (k, val) in cases.iter().enumerate() {
@@ -246,43 +356,38 @@ where
                 cfg.emit(&format!("C {}\t{}", k, val.text()));
             }
             let x: T = T::from_val(val);
-            let mut route = |cfg: &mut ChildCfg, name: &str, f: &mut dyn FnMut() -> String| {
-                if done.contains(name) {
-                    return;
-                }
-                cfg.emit(&format!("B {} {}", k, name));
-                LAST_PANIC.with(|p| p.borrow_mut().clear());
-                let r = guard(|| f());
-                let note = LAST_PANIC.with(|p| p.borrow().clone());
-                cfg.emit(&format!("E {} {}\t{}\t{}", k, name, r, note.replace(['\n', '\t'], " ")));
-            };
-            route(cfg, "push", &mut || match x.clone().marshal::<RootedThread>(&vm) {
+            run_route(cfg, &mut st, &progs, &done, k, "push", &mut |st| match convert::<T, Walked>(&st.vm, x.clone()) {
+                Ok(w) => w.0,
+                Err(e) => vm_err_class(&e),
+            });
+            run_route(cfg, &mut st, &progs, &done, k, "get", &mut |st| match convert::<T, T>(&st.vm, x.clone()) {
+                Ok(y) => render(&y),
+                Err(e) => vm_err_class(&e),
+            });
+            // `marshal` roots the pushed value; the root is released when the handle is dropped
+            run_route(cfg, &mut st, &progs, &done, k, "root", &mut |st| match x.clone().marshal::<RootedThread>(&st.vm) {
                 Ok(rv) => {
-                    let mut o = String::new();
-                    walk(rv.get_variant(), &mut o, 0);
-                    o
+                    let y = render(&T::from_value(&st.vm, rv.get_variant()));
+                    drop(rv);
+                    y
                 }
                 Err(e) => vm_err_class(&e),
             });
-            route(cfg, "get", &mut || match x.clone().marshal::<RootedThread>(&vm) {
-                Ok(rv) => render(&T::from_value(&vm, rv.get_variant())),
-                Err(e) => vm_err_class(&e),
-            });
-            route(cfg, "id", &mut || match f_id.as_mut() {
+            run_route(cfg, &mut st, &progs, &done, k, "id", &mut |st| match st.f_id.as_mut() {
                 Some(f) => match f.call(x.clone()) {
                     Ok(y) => render(&y),
                     Err(e) => vm_err_class(&e),
                 },
                 None => "NOCOMPILE".to_string(),
             });
-            route(cfg, "rb", &mut || match f_rb.as_mut() {
+            run_route(cfg, &mut st, &progs, &done, k, "rb", &mut |st| match st.f_rb.as_mut() {
                 Some(f) => match f.call(x.clone()) {
                     Ok(y) => render(&y),
                     Err(e) => vm_err_class(&e),
                 },
                 None => "NOCOMPILE".to_string(),
             });
-            route(cfg, "wrap", &mut || match f_wrap.as_mut() {
+            run_route(cfg, &mut st, &progs, &done, k, "wrap", &mut |st| match st.f_wrap.as_mut() {
                 Some(f) => match f.call(x.clone()) {
                     Ok(y) => render(&y),
                     Err(e) => vm_err_class(&e),
@@ -290,13 +395,17 @@ where
                 None => "NOCOMPILE".to_string(),
             });
             if let Some(s) = serde {
-                s(&vm, cfg, k, &x, &prog_rb, resumed);
+                s(&mut st, &progs, cfg, &done, k, &x);
             }
         }
         cfg.emit("CASES-DONE");
     }
 
     // ---- route 5: requests at every type of the family ---------------------------------------
+    if DIRTY.with(|d| d.get()) {
+        std::mem::forget(std::mem::replace(&mut st, mk_state::<T>(&progs)));
+    }
+    let vm = st.vm.clone();
     let picks: Vec<Val> = {
         let b = ty.boundary(if cfg.tier_thorough { 120 } else { 40 });
         let mut p = vec![b[0].clone()];
@@ -325,7 +434,7 @@ where
         gnames.push((name, val.text(), ok == "OK"));
     }
     let fname = format!("c11f{}", cfg.idx);
-    let f_ok = guard(|| match vm.load_script(&fname, &prog_id) {
+    let f_ok = guard(|| match vm.load_script(&fname, &progs.id) {
         Ok(()) => "OK".to_string(),
         Err(e) => err_class(&e),
     }) == "OK";
@@ -336,6 +445,8 @@ where
     let mut m = Mismatch { cfg, vm: &vm, gnames: &gnames, fname: &fname, f_ok, cur: 0 };
     fam::visit_all(&mut m);
     m.cfg.emit("DONE");
+    // the process exits right after: skip the destructors of a VM that may have panicked
+    std::mem::forget(st);
 }
 
 struct Mismatch<'a> {
@@ -403,64 +514,59 @@ impl<'a> Visitor for Mismatch<'a> {
     }
 }
 
-fn serde_routes<T>(vm: &RootedThread, cfg: &mut ChildCfg, k: usize, x: &T, prog_rb: &str, resumed: bool)
+fn serde_routes<T>(st: &mut St<T>, progs: &Progs, cfg: &mut ChildCfg, done: &BTreeSet<String>, k: usize, x: &T)
 where
     T: M + VmType + Send + Sync + for<'vm> Pushable<'vm> + for<'vm, 'value> Getable<'vm, 'value> + serde::Serialize + serde::de::DeserializeOwned,
     <T as VmType>::Type: Sized,
 {
-    let done = if resumed { cfg.done_routes.clone() } else { BTreeSet::new() };
-    let mut route = |cfg: &mut ChildCfg, name: &str, f: &mut dyn FnMut() -> String| {
-        if done.contains(name) {
-            return;
-        }
-        cfg.emit(&format!("B {} {}", k, name));
-        LAST_PANIC.with(|p| p.borrow_mut().clear());
-        let r = guard(|| f());
-        let note = LAST_PANIC.with(|p| p.borrow().clone());
-        cfg.emit(&format!("E {} {}\t{}\t{}", k, name, r, note.replace(['\n', '\t'], " ")));
-    };
-    route(cfg, "ser", &mut || match Ser(x.clone()).marshal::<RootedThread>(vm) {
+    run_route(cfg, st, progs, done, k, "ser", &mut |st| match convert::<Ser<T>, Walked>(&st.vm, Ser(x.clone())) {
+        Ok(w) => w.0,
+        Err(e) => vm_err_class(&e),
+    });
+    // `De::from_value` runs on a rooted value, outside the VM's context lock, so that its `ice!`
+    // on a failed deserialization does not poison the VM.  The root is leaked on purpose (route
+    // `root` covers releasing roots).
+    run_route(cfg, st, progs, done, k, "depush", &mut |st| match x.clone().marshal::<RootedThread>(&st.vm) {
         Ok(rv) => {
-            let mut o = String::new();
-            walk(rv.get_variant(), &mut o, 0);
-            o
+            let r = catch_unwind(AssertUnwindSafe(|| render(&De::<T>::from_value(&st.vm, rv.get_variant()).0)));
+            std::mem::forget(rv);
+            match r {
+                Ok(s) => s,
+                Err(e) => std::panic::resume_unwind(e),
+            }
         }
         Err(e) => vm_err_class(&e),
     });
-    route(cfg, "depush", &mut || match x.clone().marshal::<RootedThread>(vm) {
-        Ok(rv) => render(&De::<T>::from_value(vm, rv.get_variant()).0),
+    run_route(cfg, st, progs, done, k, "deser", &mut |st| match Ser(x.clone()).marshal::<RootedThread>(&st.vm) {
+        Ok(rv) => {
+            let r = catch_unwind(AssertUnwindSafe(|| render(&De::<T>::from_value(&st.vm, rv.get_variant()).0)));
+            std::mem::forget(rv);
+            match r {
+                Ok(s) => s,
+                Err(e) => std::panic::resume_unwind(e),
+            }
+        }
         Err(e) => vm_err_class(&e),
     });
-    route(cfg, "deser", &mut || match Ser(x.clone()).marshal::<RootedThread>(vm) {
-        Ok(rv) => render(&De::<T>::from_value(vm, rv.get_variant()).0),
-        Err(e) => vm_err_class(&e),
+    run_route(cfg, st, progs, done, k, "serrb", &mut |st| {
+        if !st.serrb_tried {
+            st.serrb_tried = true;
+            st.f_serrb = match st.vm.run_expr::<OwnedFunction<fn(Ser<T>) -> T>>("c11serrb", &progs.rb) {
+                Ok((f, _)) => Some(Box::new(f)),
+                Err(e) => {
+                    eprintln!("compile serrb failed: {}", e);
+                    None
+                }
+            };
+        }
+        match st.f_serrb.as_mut().and_then(|b| b.downcast_mut::<OwnedFunction<fn(Ser<T>) -> T>>()) {
+            Some(f) => match f.call(Ser(x.clone())) {
+                Ok(y) => render(&y),
+                Err(e) => vm_err_class(&e),
+            },
+            None => "NOCOMPILE".to_string(),
+        }
     });
-    route(cfg, "serrb", &mut || {
-        // compiled per call site once: cache in a thread local keyed by the program text
-        SER_RB.with(|c| {
-            let mut c = c.borrow_mut();
-            if c.as_ref().map(|(p, _)| p != prog_rb).unwrap_or(true) {
-                let f: Option<Box<dyn std::any::Any>> = match vm.run_expr::<OwnedFunction<fn(Ser<T>) -> T>>("c11serrb", prog_rb) {
-                    Ok((f, _)) => Some(Box::new(f)),
-                    Err(e) => {
-                        eprintln!("compile serrb failed: {}", e);
-                        None
-                    }
-                };
-                *c = Some((prog_rb.to_string(), f));
-            }
-            match c.as_mut().unwrap().1.as_mut().and_then(|b| b.downcast_mut::<OwnedFunction<fn(Ser<T>) -> T>>()) {
-                Some(f) => match f.call(Ser(x.clone())) {
-                    Ok(y) => render(&y),
-                    Err(e) => vm_err_class(&e),
-                },
-                None => "NOCOMPILE".to_string(),
-            }
-        })
-    });
-}
-thread_local! {
-    static SER_RB: std::cell::RefCell<Option<(String, Option<Box<dyn std::any::Any>>)>> = std::cell::RefCell::new(None);
 }
 
 struct ChildVisitor {
@@ -489,7 +595,7 @@ impl Visitor for ChildVisitor {
         self.cur += 1;
         if self.cfg.as_ref().map(|c| c.idx) == Some(me) {
             let mut cfg = self.cfg.take().unwrap();
-            run_type::<T>(&mut cfg, Some(&|vm, cfg, k, x, prog, resumed| serde_routes::<T>(vm, cfg, k, x, prog, resumed)));
+            run_type::<T>(&mut cfg, Some(&|st, progs, cfg, done, k, x| serde_routes::<T>(st, progs, cfg, done, k, x)));
         }
     }
 }
@@ -516,7 +622,7 @@ impl Visitor for Lister {
 // ---------------------------------------------------------------------------------------------
 // parent
 
-const CORE_ROUTES: &[&str] = &["push", "get", "id", "rb", "wrap"];
+const CORE_ROUTES: &[&str] = &["push", "get", "root", "id", "rb", "wrap"];
 const SERDE_ROUTES: &[&str] = &["ser", "depush", "deser", "serrb"];
 
 #[derive(Default)]
@@ -595,6 +701,8 @@ fn run_child_until_done(args: &Args, idx: usize, log_dir: &std::path::Path, cras
     let mut from_case = 0usize;
     let mut done_routes = String::new();
     let mut gfrom = 0usize;
+    let mut disabled: BTreeSet<String> = BTreeSet::new();
+    let mut abort_count: BTreeMap<String, usize> = BTreeMap::new();
     let timeout = std::time::Duration::from_secs(if args.thorough() { 900 } else { 240 });
     for _attempt in 0..400 {
         let mut child = std::process::Command::new(&exe)
@@ -606,8 +714,9 @@ fn run_child_until_done(args: &Args, idx: usize, log_dir: &std::path::Path, cras
             .arg(args.tier.clone())
             .arg(args.seed.to_string())
             .arg(&log)
+            .arg(if disabled.is_empty() { "-".to_string() } else { disabled.iter().cloned().collect::<Vec<_>>().join(",") })
             .stdout(std::process::Stdio::null())
-            .stderr(std::process::Stdio::piped())
+            .stderr(std::fs::File::create(log_dir.join(format!("child-{}.err", idx))).map(std::process::Stdio::from).unwrap_or(std::process::Stdio::null()))
             .spawn()
             .expect("spawn child");
         let t0 = std::time::Instant::now();
@@ -624,11 +733,7 @@ fn run_child_until_done(args: &Args, idx: usize, log_dir: &std::path::Path, cras
                 }
             }
         };
-        let mut err = String::new();
-        if let Some(mut e) = child.stderr.take() {
-            use std::io::Read;
-            let _ = e.read_to_string(&mut err);
-        }
+        let err = std::fs::read_to_string(log_dir.join(format!("child-{}.err", idx))).unwrap_or_default();
         let mut fresh = TypeResult::default();
         let open = parse_child_log(&log, &mut fresh);
         res = fresh;
@@ -658,6 +763,12 @@ fn run_child_until_done(args: &Args, idx: usize, log_dir: &std::path::Path, cras
                 } else {
                     writeln!(f, "E {} {}\t{}\t{}", a, b, how, tail.replace('\t', " ").chars().take(160).collect::<String>()).unwrap();
                     let k: usize = a.parse().unwrap();
+                    // a route that keeps killing the process is switched off for the rest of the type
+                    let n = abort_count.entry(b.clone()).or_insert(0);
+                    *n += 1;
+                    if *n >= 3 {
+                        disabled.insert(b.clone());
+                    }
                     let mut fresh = TypeResult::default();
                     parse_child_log(&log, &mut fresh);
                     let done: Vec<String> = fresh.cases.get(&k).map(|c| c.1.keys().cloned().collect()).unwrap_or_default();
@@ -683,7 +794,13 @@ fn main() {
         let done_routes: BTreeSet<String> = if argv[4] == "-" { BTreeSet::new() } else { argv[4].split(',').map(|s| s.to_string()).collect() };
         let gfrom: usize = argv[5].parse().unwrap();
         let log = std::fs::OpenOptions::new().create(true).append(true).open(&argv[8]).expect("child log");
-        let cfg = ChildCfg { idx, from_case, done_routes, gfrom, tier_thorough: argv[6] == "thorough", seed: argv[7].parse().unwrap(), log };
+        let disabled: BTreeSet<String> = if argv[9] == "-" { BTreeSet::new() } else { argv[9].split(',').map(|s| s.to_string()).collect() };
+        let cfg = ChildCfg { idx, from_case, done_routes, gfrom, disabled, tier_thorough: argv[6] == "thorough", seed: argv[7].parse().unwrap(), log };
+        // panics are caught per route; keep stderr small (message only, no backtrace)
+        std::panic::set_hook(Box::new(|info| {
+            let msg = format!("{}", info);
+            eprintln!("panic: {}", msg.lines().next().unwrap_or("").chars().take(300).collect::<String>());
+        }));
         // a deep but finite recursion must not be mistaken for divergence: run on a large stack
         let h = std::thread::Builder::new()
             .stack_size(64 << 20)
